@@ -9,6 +9,7 @@ import Driver.C10
 import Driver.C11
 import Driver.C12
 import Driver.C13
+import Driver.C14
 import Driver.C16
 import Driver.C17
 import Driver.C19
@@ -26,6 +27,7 @@ def dispatch (p op : String) (c i : Json) : Except String (Json × String) :=
   | "C11" => D11.handle op c i
   | "C12" => D12.handle op c i
   | "C13" => D13.handle op c i
+  | "C14" => D14.handle op c i
   | "C16" => D16.handle op c i
   | "C17" => D17.handle op c i
   | "C19" => D19.handle op c i
